@@ -238,7 +238,7 @@ where
                 // And finally if not doing anything else we can process
                 // messages waiting in our internal queue to be published,
                 // which were enqueued by the direct_update() method below.
-                msg = pub_q_rx.recv() => {
+                msg = pub_q_rx.recv(), if connection.client().is_some() => {
                     match msg {
                         Some(SenderMsg {
                             received,
